@@ -289,7 +289,8 @@ func VerifC03Backpressure() {
 		if zzverif.Bool("release") {
 			final = 'm'
 		}
-		seq = ansi.CSI{Final: final, Intermediate: []rune{'<'}, Parameters: [][]int{{int(b & 3)}, {1 + int(b>>4)}, {1}}}
+		// button, motion flag (32) and column free
+		seq = ansi.CSI{Final: final, Intermediate: []rune{'<'}, Parameters: [][]int{{int(b & 35)}, {1 + int(b>>6)}, {1}}}
 	case 8:
 		seq = ansi.CSI{Final: 'I'}
 	case 9:
@@ -491,6 +492,29 @@ func VerifC03Answers() {
 			want.Cols, want.Rows = w, h
 		}
 		zzverif.Assert(vx.nextSize == want, "size-report-updates-exactly-its-dimensions")
+		// the first report of a kind announces that capability (and nothing else); a later
+		// one of the cell size completes the pending size request
+		knownChars, knownPix := vx.caps.reportSizeChars, vx.caps.reportSizePixels
+		evs := verifDrain(vx)
+		okEv := len(evs) == 0
+		if pix && !knownPix {
+			okEv = len(evs) == 1
+			if okEv {
+				_, okEv = evs[0].(textAreaPix)
+			}
+		}
+		if !pix && !knownChars {
+			okEv = len(evs) == 1
+			if okEv {
+				_, okEv = evs[0].(textAreaChar)
+			}
+		}
+		zzverif.Assert(okEv, "size-report-announces-exactly-its-own-capability-once")
+		wantDone := 0
+		if !pix && knownChars {
+			wantDone = 1
+		}
+		zzverif.Assert(len(vx.chSizeDone) == wantDone, "cell-size-report-completes-the-size-request")
 	}
 	zzverif.Reach("end")
 }
